@@ -485,6 +485,8 @@ def check(case, res):
 def run(tier):
     t0 = time.time()
     res = explore(PROP + "-" + tier, gen_factory(tier), check, chunk=200, deadline=t0 + (2400 if tier == "thorough" else 420))
+    from ..core import explore_gcc
+    res.merge(explore_gcc(PROP + "-" + tier, gen_factory("quick"), check, chunk=200, deadline=t0 + (2700 if tier == "thorough" else 600)))
     rule = ("all strings of length <=%d over 11 bytes (NUL, space, a, A, 1, comma, quote, LF, 0x7f, 0x80, 0xff) for the unary functions; length <=%d over "
             "4 bytes x positions {null, MIN, -1, 0..4, MAX} for the positional ones; all triples for replace/tokenize/strpos; all strings of length <=%d over "
             "0 1 . e E - + space x a for isnum/num/int; integer and decimal lattices for str/int/num round trips; all byte strings of length <=2 and "
